@@ -1,4 +1,6 @@
 CONSTANT SubmeshStep = 48
+CONSTANT AnimBoneRule = "table"
+CONSTANT ViewBatchBytes = 24
 INIT Init
 NEXT Next
 POSTCONDITION Accepted
